@@ -267,7 +267,11 @@ def check_ckpt(chk, cases, results):
                         % (rr['rank'], rr['nprocs'], want_t, loaded_t, c))
                 chk.violation(key, what, rep)
             if c['loader'] == 'setup' and key is None:
-                exp_t = ('int', float(want_t)) if float(want_t) == int(want_t) else ('float', float(want_t))
+                # a time read from a file name is an int when integral (a4e5b38); a requested timepoint is returned as given
+                if c['time'] is not None:
+                    exp_t = (type(c['time']).__name__, float(c['time']))
+                else:
+                    exp_t = ('int', float(want_t)) if float(want_t) == int(want_t) else ('float', float(want_t))
                 if tuple(rr['tret']) != exp_t:
                     chk.violation('setups.setupFromFile:time', 'returned t=%r, expected %r: %r' % (rr['tret'], exp_t, c), rep)
             if c['loader'] == 'setup' and c.get('want') and rr['layout'] != c['want']:
